@@ -1,12 +1,118 @@
 /-
-  Props.C04 — the theorems that decide property C04 (see DESIGN.md §7).
+  Props.C04 — Compile accepts exactly the sentences of the JMESPath grammar
+  (DESIGN.md §7, C04).
+
+  The published grammar is `Spec.G` (Spec/Grammar.lean): the ABNF of the
+  specification as an inductive predicate over token lists, with one marked
+  extension (`lenient`, finding D24).
+
+  * SOUNDNESS (full): whatever Compile accepts is a sentence
+    (`C04_accepted_is_grammatical`, `C04_compiled_is_grammatical`) — no
+    malformed expression is compiled into something that only fails later.
+    Proved through the relational description `R` of the parser, which is
+    sound AND complete for the parser model (`R_sound`, `R_complete`), for
+    every parser table.
+  * rejection happens at compile time: `Search` evaluates nothing when
+    `Compile` fails (`C04_rejection_precedes_evaluation`).
+  * COMPLETENESS (partial): every sentence written by the precedence-aware
+    printer — the projection-free fragment, with minimal or full
+    parentheses — compiles (`C04_printed_sentences_compile_partial`).  That
+    every sentence of the ambiguous ABNF has such a printed form is NOT proved
+    (it is a fact about the grammar, not about the code); the correspondence
+    check enumerates all token sequences up to a length bound against the
+    specification-table parser instead.  Known exception: integer literals
+    outside int64 are grammatical and rejected (finding D22).
 -/
 import Props.Tables
+import Proofs.Grammar
+import Proofs.Printer
+import Proofs.ApiGlue
 namespace Jmes.Props
-open Jmes
+open Jmes Jmes.Parser Jmes.Spec
 
 theorem C04_generated_table_ok : TableOK Generated.table = true := generated_table_ok
 theorem C04_generated_sigs_ok : SigsOK Generated.functionTable Spec.functionTable = true := generated_sigs_ok
 theorem C04_generated_lex_ok : LexTablesOK Model.lexTables Spec.lexTables = true := generated_lex_ok
+
+variable {N : Type} [NumOps N]
+
+/-- Soundness at token level, for ANY parser table: an accepted token list is
+    an expression of the grammar followed by the end-of-input token. -/
+theorem C04_accepted_is_grammatical (tbl : ParserTable) (toks : List Token) (ast : Node N)
+    (h : parseTokens tbl toks = .ok ast) :
+    ∃ s e rest, toks = s ++ e :: rest ∧ e.ty = .eof ∧ G N true .expr s := by
+  obtain ⟨p1, t, rest, hR, hafter, ht⟩ := parseTokens_ok_iff_R tbl toks ast h
+  have hs := R_grammatical tbl hR
+  simp only [Sound] at hs
+  obtain ⟨seg, hseg, hg, _⟩ := hs
+  exact ⟨seg, t, rest, by rw [← hafter]; exact hseg.after, ht, hg⟩
+
+theorem eof_last {seg pre rest : List Token} {t e : Token} (h : seg ++ t :: rest = pre ++ [e])
+    (hpre : ∀ x ∈ pre, x.ty ≠ .eof) (ht : t.ty = .eof) : seg = pre ∧ rest = [] := by
+  induction seg generalizing pre with
+  | nil =>
+    cases pre with
+    | nil => simp at h; exact ⟨rfl, h.2⟩
+    | cons x xs =>
+      simp at h
+      exact absurd (h.1 ▸ ht) (hpre x (by simp))
+  | cons y ys ih =>
+    cases pre with
+    | nil =>
+      simp at h
+    | cons x xs =>
+      simp only [List.cons_append, List.cons.injEq] at h
+      obtain ⟨r1, r2⟩ := ih h.2 (fun z hz => hpre z (by simp [hz]))
+      exact ⟨by rw [h.1, r1], r2⟩
+
+theorem lex_tables_safe : Lexer.TablesSafe Model.lexTables := by
+  refine ⟨by decide, ?_⟩
+  intro kv hkv
+  simp only [Model.lexTables, Generated.basicTokens] at hkv
+  simp only [List.mem_cons, List.not_mem_nil, or_false] at hkv
+  rcases hkv with rfl | rfl | rfl | rfl | rfl | rfl | rfl | rfl | rfl | rfl <;> simp
+
+/-- Soundness for `Compile` on bytes (the tables regenerated from /repo): the
+    expression tokenizes, and its tokens are a sentence of the grammar. -/
+theorem C04_compiled_is_grammatical (expr : Bytes) (ast : Node N)
+    (h : (Api.compile Model.cfg expr : Res (Node N)) = .ok ast) :
+    ∃ toks, Lexer.tokenize Model.lexTables expr = .ok toks ∧ Sentence N true toks := by
+  rw [Api.compile_eq_parseWith] at h
+  unfold parseWith at h
+  obtain ⟨toks, htok, hp⟩ := bind_ok h
+  refine ⟨toks, htok, ?_⟩
+  obtain ⟨s, e, rest, hto, he, hg⟩ := C04_accepted_is_grammatical _ toks ast hp
+  have hl := Lexer.tokenize_ok Model.lexTables lex_tables_safe expr
+  rw [show (Model.cfg.lex) = Model.lexTables from rfl] at htok
+  rw [htok] at hl
+  obtain ⟨⟨pre, hpre, hne⟩, _⟩ := hl
+  rw [hto] at hpre
+  obtain ⟨rfl, rfl⟩ := eof_last hpre hne he
+  exact ⟨s, e, hto, he, hg⟩
+
+/-- An expression that does not compile is rejected by `Search` with the
+    compile error; nothing is evaluated. -/
+theorem C04_rejection_precedes_evaluation (expr : Bytes) (e : Err) (doc : Val N)
+    (h : (Api.compile Model.cfg expr : Res (Node N)) = .err e) :
+    Api.search Model.cfg expr doc = .err e := by
+  simp only [Api.search, h]
+
+/-- Completeness on the printed fragment: every expression of `Spec.PE`,
+    written with minimal or with full parentheses, is accepted. -/
+theorem C04_printed_sentences_compile_partial (e : PE N) (hw : Parser.wf e) (full : Bool) :
+    ∃ ast : Node N, parseTokens Generated.table (ppE full e ++ [eofTok 0]) = .ok ast := by
+  refine ⟨node e, ?_⟩
+  rw [parseTokens_congr (sameDecisions_of_tableOK Generated.table Spec.table generated_table_ok spec_table_ok)]
+  exact round_trip_spec e hw full
+
+def isOk {α} : Res α → Bool
+  | .ok _ => true
+  | _ => false
+
+/-- The lenient production is really used by the parser (finding D24): the
+    tokens of `a[*][b]` are accepted. -/
+example : isOk (parseTokens (N := Int) Spec.table
+    [tk .uident (b "a"), tk .lbracket, tk .star, tk .rbracket, tk .lbracket, tk .uident (b "b"), tk .rbracket, eofTok 0]) = true := by
+  decide +kernel
 
 end Jmes.Props
